@@ -1,16 +1,15 @@
-SPECIFICATION RSpec
+SPECIFICATION Spec
 CONSTANTS
-  NK = 2
+  NK = 3
   MaxSeq = 3
   NL = 3
-  MemCap = 2
-  FileCap = 2
+  MemCap = 1
+  FileCap = 3
   MaxSnaps = 0
   MaxPins = 0
+  MaxFiles = 9
   KeepExtra = FALSE
-  Ops = {0, 1}
-  MaxFiles = 5
-  MaxReopens = 2
+  Ops = {1}
   Bug_RangeMin = FALSE
   Bug_NoBoundary = FALSE
   Bug_DropTombNoBase = FALSE
@@ -20,11 +19,7 @@ CONSTANTS
   Bug_DeletePinned = FALSE
   Bug_ImmDropEarly = FALSE
   Bug_FlushDeepDuringCompaction = FALSE
-  Bug_SnapshotSwapsBounds = FALSE
-  Bug_SeqFromManifestOnly = FALSE
-  Bug_ReplaySkipsOlderLogs = FALSE
-  Bug_CounterNotRestored = FALSE
-INVARIANTS RReadCorrect RWellFormed RSeqSane ManifestMatches NumbersFresh
-CONSTRAINT RBound
-VIEW RView
+INVARIANTS ReadCorrect WellFormed NothingLiveDeleted SeqSane
+CONSTRAINT MCBound
+VIEW MCView
 CHECK_DEADLOCK FALSE
